@@ -13,6 +13,14 @@ CHECKS = {
                      "the same rule (established for all impls in the workspace by this rule; user impls out of scope). One reviewed exception: "
                      "[T;N] parse twin's dead Err arm of Vec::try_into.",
                 ref="§4 C03; §3.3; Appendix A, D"),
+    "C04": dict(level="other", tech="path rules (must-pass-through, no-success-without-EOI) on effect decision trees of every rule-macro expansion",
+                text="For every expansion of the exported rule macros (fixture crate, all kinds, shortcut and generator forms) and for "
+                     "rule::{parse,check,parse_without_ignore,check_without_ignore}: the full-parse wrapper is prefix match on the given input -> "
+                     "trailing skip iff the rule is not (compound-)atomic -> end-of-input test recorded under Rule::EOI on that cursor -> success "
+                     "iff it holds, returning the prefix match's tree; no other success leaf; TypedParser/default entry methods create a fresh "
+                     "Stack and Tracker and delegate once. Structural clauses only.",
+                note="Trusts the EDT evaluator; what the skip node matches on an input is not decided; generator's choice of macro arguments per rule kind is covered under C07/C20.",
+                ref="§4 C04"),
     "C05": dict(level="other", tech="typestate (acquire/release pairing, must-pass-through) rules on effect decision trees from typed HIR",
                 text="On the effect decision trees of every combinator (generic code: all grammars, all inputs): snapshot and restore/clear_snapshot "
                      "are balanced on every path; every path that recovers from a failed child (next alternative, None option, end of repetition, "
@@ -23,6 +31,22 @@ CHECKS = {
                 note="Assumes pest::Stack implements snapshot/restore as documented (known unsound nested clear_snapshot in pest 2.7.14 is listed in the "
                      "evidence assumptions); cursor primitives move the cursor only on success (C09 rule).",
                 ref="§4 C05; §3.3"),
+    "C06": dict(level="other", tech="effect-decision-tree path rules per stack built-in + sibling normal-form equality of index normalisation with pest",
+                text="PEEK/POP/DROP/PEEK_ALL/POP_ALL/PeekSlice1/PeekSlice2/Push, both twins: right stack operation, the text matched is the text of "
+                     "the entry read, PEEK_ALL iterates through Rev<..> (top to bottom) and slices forward, POP_ALL pops until empty after a "
+                     "PEEK_ALL match, empty stack / out-of-range exits report and fail, empty range succeeds without consuming, Push pushes "
+                     "span(start, end of operand); constrain_idxs/normalize_index are the same programs as pest's; no panic-capable site except "
+                     "stack[range] behind the range checks.",
+                note="Trusts pest's parser_state.rs as oracle for index arithmetic; text equality on inputs is match_string's behaviour.",
+                ref="§4 C06"),
+    "C07": dict(level="other", tech="placement rules for skip events on effect decision trees; impl-table rule for entry points (type-level constants on fixtures: see notes)",
+                text="Skip (never-failing) match events occur exactly before every sequence element but the first (inside Loop(0..SKIP) with the "
+                     "element type's Skip and SKIP), before repetition iterations under the guard i != 0, and between prefix match and EOI in the "
+                     "skipping full-parse wrapper - and nowhere else (rule structs contain none); after a failed iteration the loop-carried "
+                     "cursor is unchanged (skip given back); ParsableTypedNode exists only for <'i, 1>.",
+                note="What WHITESPACE/COMMENT match is the skip node's behaviour. Atomicity constants emitted by the generator are decided by the "
+                     "type-level rules (R07-CONST/SKIPTY/SITES) once registered in this check's rule list (see evidence rules[]).",
+                ref="§4 C07"),
     "C12": dict(level="translation_validation", tech="sibling normal-form equality of typed HIR (repo copy vs pest source)",
                 text="Translation validation: Position::{new,line_col,line_of,find_line_start,find_line_end,at_start,at_end,...} "
                      "are shown to be the same programs as pest's (typed-HIR normal forms equal), hence equal results for every "
@@ -35,6 +59,13 @@ CHECKS = {
                      "merge_spans, LinesSpan/Lines::next, PartialEq/Hash of Span and Position are the same programs as pest's.",
                 note="Same trusted base as C12.",
                 ref="§4 C12,C13; §3.4"),
+    "C19": dict(level="other", tech="effect-decision-tree rules: loop range, lower-bound guard, success counting; alias type structure",
+                text="RepeatMin/RepeatMinMax/AtomicRepeat (TypedNode and NeverFailedTypedNode impls, both twins): loop over 0.. / 0..MAX, one unit "
+                     "per iteration, success carries the unit's cursor, failure fails iff i < MIN else stops with the pre-iteration cursor, i counts "
+                     "successes, never-failing impls only for MIN = 0; [T;N], (T1,T2), Option<T>, SkipChar<N> have the shapes they denote; the "
+                     "RepExact/RepMin/RepMinMax/Rep/RepOnce aliases route their bounds to the right const parameters; twins equal.",
+                note="Generic children obey their contracts; decides structure of generic code, not behaviour on inputs.",
+                ref="§4 C19"),
 }
 NA = {}
 ALL = ["C%02d" % i for i in range(1, 21)]
